@@ -341,3 +341,8 @@ MUTANTS = [
 # SESSION7 additions to the claim (clauses added in DESIGN section 12)
 CLAIM['technique'] += '; stream reads (dictionary import) un-kill the carried fields they write; static inventory restricted to random access'
 CLAIM['text'] += ' C14-a (extended): a reset made before the dictionary import does not count. C14-e: random access keeps nothing in static storage.'
+
+
+# SESSION7b additions to the claim (round 8, DESIGN 12.6)
+CLAIM['technique'] += '; restore clauses of the scans and end-of-data typestate shared'
+CLAIM['text'] += ' C14-f/g: validity scans hand the context back restored; a chunk end on the read side leaves a defined reader state.'
